@@ -111,15 +111,19 @@ int attempt(File &f, const Mut &m, int timeout_s, std::string &what) {
 
 void marker(const char *m) { std::string p = std::string("/VERIF-MARK-") + m; (void)access(p.c_str(), F_OK); }   // visible to strace
 
-void ro_case(Ctx &c, bool surface_table) {
+void ro_case(Ctx &c, bool surface_table, bool holder = false) {
     Rng &r = c.rng; Graph g(c); g.hostile_pct = 15; g.create(c.path("c09.nix"));
     g.grow((int)r.range(10, 40)); build_rich(g.f);   // random content first, then one of everything (the surface table addresses the latter by name)
     Observer o0; ONode t0 = o0.file(g.f); g.close();
     std::string before = file_bytes(g.path); struct stat sb; stat(g.path.c_str(), &sb);
-    c.fp("RO" + str(surface_table)); c.count("file_bytes", (long)before.size());
+    c.fp("RO" + str(surface_table) + str(holder)); c.count("file_bytes", (long)before.size());
     advance_clock(5);
+    // holder: the same process keeps an (idle) ReadWrite session on the file while the ReadOnly session runs. HDF5 shares one file
+    // structure per process, so the ReadOnly handle inherits write access - known finding D30; keys under C09/beside-ReadWrite-holder/
+    File hold; if (holder) { c.op("open ReadWrite holder (idle)"); hold = File::open(g.path, FileMode::ReadWrite); c.count("ro_sessions_beside_rw_holder"); }
+    const std::string HK = "C09/beside-ReadWrite-holder/";
     marker("ro-begin");
-    c.op("open ReadOnly");
+    c.op(holder ? "open ReadOnly beside-ReadWrite-holder" : "open ReadOnly");
     g.open(FileMode::ReadOnly);
     Observer o1; ONode t1 = o1.file(g.f); std::string d = tree_diff(t0, t1);
     c.check(d.empty(), "C09/readonly/tree-differs", d);
@@ -128,16 +132,16 @@ void ro_case(Ctx &c, bool surface_table) {
         for (auto &m : M) {
             c.op("ro-mutator " + m.name); std::string what;
             int res = attempt(g.f, m, 10, what);
-            c.check(res == 0, "C09/ro-mutator/" + std::string(res == 1 ? "accepted" : res == 2 ? "hang" : "crash") + "/" + m.name, [&] { return "mutating call " + m.name + " on a ReadOnly file " + (res == 1 ? "returned without an exception" : res == 2 ? "did not return within 10 s" : "crashed (" + what + ")"); });
+            c.check(res == 0, (holder && res == 1) ? HK + "ro-mutator-accepted/" + m.name : "C09/ro-mutator/" + std::string(res == 1 ? "accepted" : res == 2 ? "hang" : "crash") + "/" + m.name, [&] { return "mutating call " + m.name + " on a ReadOnly file " + (res == 1 ? "returned without an exception" : res == 2 ? "did not return within 10 s" : "crashed (" + what + ")"); });
             c.count("ro_mutator_attempts");
         }
     } else { for (int i = 0; i < 10; i++) g.step(); }   // random mutators in-process (their exceptions are swallowed by the engine)
-    Observer o2; ONode t2 = o2.file(g.f); std::string d2 = tree_diff(t0, t2); c.check(d2.empty(), "C09/readonly/tree-changed-by-session", d2);
-    g.close();
+    Observer o2; ONode t2 = o2.file(g.f); std::string d2 = tree_diff(t0, t2); c.check(d2.empty(), holder ? HK + "tree-changed-by-session" : "C09/readonly/tree-changed-by-session", d2);
+    g.close(); if (holder) hold.close();
     marker("ro-end");
     std::string after = file_bytes(g.path);
-    c.check(after == before, "C09/readonly/bytes-changed", [&] { size_t i = 0; while (i < after.size() && i < before.size() && after[i] == before[i]) i++; return "file bytes differ after a ReadOnly session: size " + str(before.size()) + " -> " + str(after.size()) + ", first difference at offset " + str(i); });
-    struct stat sa; stat(g.path.c_str(), &sa); c.check(sa.st_mtime == sb.st_mtime && sa.st_size == sb.st_size, "C09/readonly/mtime-or-size-changed", "mtime or size of the file changed");
+    c.check(after == before, holder ? HK + "bytes-changed" : "C09/readonly/bytes-changed", [&] { size_t i = 0; while (i < after.size() && i < before.size() && after[i] == before[i]) i++; return "file bytes differ after a ReadOnly session: size " + str(before.size()) + " -> " + str(after.size()) + ", first difference at offset " + str(i); });
+    struct stat sa; stat(g.path.c_str(), &sa); c.check(sa.st_mtime == sb.st_mtime && sa.st_size == sb.st_size, holder ? HK + "mtime-or-size-changed" : "C09/readonly/mtime-or-size-changed", "mtime or size of the file changed");
 }
 
 void rw_case(Ctx &c) {
@@ -202,11 +206,12 @@ void defect_case(Ctx &c) {
 
 void run_case(Ctx &c) {
     int kind = (int)(c.index % 8);
-    if (kind <= 2) ro_case(c, true); else if (kind <= 4) ro_case(c, false); else if (kind <= 6) rw_case(c); else defect_case(c);
+    bool holder = (c.index / 8) % 4 == 3;   // a quarter of the ReadOnly sessions run beside a ReadWrite session of the same process
+    if (kind <= 2) ro_case(c, true, holder); else if (kind <= 4) ro_case(c, false, holder); else if (kind <= 6) rw_case(c); else defect_case(c);
     c.nontrivial = c.checks > 5;
 }
 long ncases(const std::string &tier) { return tier == "quick" ? 64 : 960; }
-std::vector<std::string> witnesses() { return {"ro-surface"}; }
-void run_witness(Ctx &c, const std::string &name) { if (name == "ro-surface") ro_case(c, true); c.nontrivial = true; }
+std::vector<std::string> witnesses() { return {"ro-surface", "d30-ro-beside-rw-holder"}; }
+void run_witness(Ctx &c, const std::string &name) { if (name == "ro-surface") ro_case(c, true); else if (name == "d30-ro-beside-rw-holder") { ro_case(c, true, true); } c.nontrivial = true; }
 Reg reg({"C09", ncases, run_case, witnesses, run_witness, 400});
 }  // namespace
